@@ -3,8 +3,13 @@
 1. specs/SftpProto/SftpProto.tla (client waiter table): TLC exhausts K = 3
    outstanding requests x every reply sequence <<id, type>> incl. unknown id,
    duplicate id and wrong type against OwnReply, NoPhantomReply,
-   UnknownIdFails, WaitsIffUnanswered, ExactlyOnce; sensitivity: no type
-   check / no fail-all on a bad id must be rejected.  Sampled behaviours are
+   UnknownIdFails, WaitsIffUnanswered, ExactlyOnce, and callers cancelled
+   while their request is outstanding whose reply arrives late
+   (EndsOnlyOnBadId, LateReplyHarmless); sensitivity: no type check / no
+   fail-all on a bad id / late reply treated as a bad id must be rejected.
+   Behaviours of specs/SftpIO with a failed block (the library cancels the
+   sibling block requests, their replies arrive late) are replayed as well;
+   after every behaviour without a bad id a new request must get its reply.  Sampled behaviours are
    replayed into the real SFTPClientHandler through the public SFTPClient API
    with a scripted peer sending the replies.
 2. specs/SftpProto/SftpSrvCases.tla (server obligations + errno table as a
@@ -56,10 +61,12 @@ def run_tlc(spec, module, tag, consts, invs=(), props=(), view=None,
         os.remove(os.path.join(spec, cfg))
 
 
-PROTO_CONSTS = dict(K=3, Kinds=ALLKINDS, MaxReplies=4, UnknownId=99,
-                    AllowUnknown='TRUE', CheckType='TRUE', FailAll='TRUE')
+PROTO_CONSTS = dict(K=3, Kinds=ALLKINDS, MaxReplies=4, MaxCancels=1,
+                    UnknownId=99, AllowUnknown='TRUE', CheckType='TRUE',
+                    FailAll='TRUE', DropLate='TRUE')
 PROTO_INVS = ['OwnReply', 'NoPhantomReply', 'UnknownIdFails',
-              'WaitsIffUnanswered']
+              'WaitsIffUnanswered', 'EndsOnlyOnBadId']
+PROTO_PROPS = ['ExactlyOnce', 'LateReplyHarmless']
 
 ATTR_A = ('{"size", "alloc_size", "uid", "gid", "owner", "group", '
           '"permissions", "atime", "mtime", "atime_ns", "crtime", "extended"}')
@@ -90,15 +97,27 @@ def main(ctx):
             rp = json.load(f)['replay']
         ctx.count(('replay', ctx.replay_path))
         if rp['kind'] == 'client':
-            replies = [tuple(x) for x in rp['replies']]
+            replies = [tuple(x) for x in rp.get('events') or rp['replies']]
             r = sftp_proto.client_replay(rp['kinds'], replies, rp['version'])
             sftp_io.drop_world()
             print('observed:', r.get('observed'))
             for clause in sorted({c for c, _ in r['l1']}):
                 violate({'module': 'SftpProto', 'clause': clause,
-                         'kinds': rp['kinds'], 'replies': replies,
+                         'kinds': rp['kinds'], 'events': replies,
                          'version': rp['version']},
                         '; '.join(t for c, t in r['l1'] if c == clause), rp)
+        elif rp['kind'] == 'io':
+            script = [tuple(x) if x[0] == 'start' else
+                      ('ans', [tuple(a) for a in x[1]]) for x in rp['script']]
+            r = sftp_io.replay(rp['cfg'], script, None,
+                               version=rp['version'], variant=rp['variant'])
+            sftp_io.drop_world()
+            print('outcome:', r['outcome'], 'followup:', r.get('followup'))
+            for clause, text in r['l1']:
+                if clause == 'SessionSurvives':
+                    violate({'module': 'SftpProto', 'clause': clause,
+                             'cfg': rp['cfg'], 'script': r['script']}, text,
+                            rp)
         elif rp['kind'] == 'attrs':
             # expectation of the intended table: every listed field survives
             # when the version defines it; recomputed by the TLC table run
@@ -137,12 +156,23 @@ def main(ctx):
     jobs = {}
     with concurrent.futures.ThreadPoolExecutor(max_workers=4) as ex:
         pc = dict(PROTO_CONSTS) if quick else \
-            dict(PROTO_CONSTS, K=4, MaxReplies=5,
-                 Kinds='{"status", "handle", "data", "attrs"}')
+            dict(PROTO_CONSTS, K=4, MaxReplies=5, MaxCancels=2,
+                 Kinds='{"status", "handle", "attrs"}')
         jobs['proto'] = ex.submit(
             run_tlc, PROTO, 'SftpProto', 'c14_proto', pc, PROTO_INVS,
-            ['ExactlyOnce'], 'view', workers=2 if quick else 6)
+            PROTO_PROPS, 'view', workers=2 if quick else 6)
+        jobs['proto2'] = ex.submit(
+            run_tlc, PROTO, 'SftpProto', 'c14_proto2',
+            dict(PROTO_CONSTS, MaxCancels=2, AllowUnknown='FALSE',
+                 Kinds='{"status", "handle", "attrs"}'), PROTO_INVS,
+            PROTO_PROPS, 'view', workers=2)
         small = dict(PROTO_CONSTS, K=2, MaxReplies=3)
+        jobs['nodrop'] = ex.submit(
+            run_tlc, PROTO, 'SftpProto', 'c14_nodrop',
+            dict(small, DropLate='FALSE'), ['EndsOnlyOnBadId'], (), 'view')
+        jobs['wit_late'] = ex.submit(
+            run_tlc, PROTO, 'SftpProto', 'c14_witl', small,
+            ['NeverLateReply'], (), 'view')
         jobs['notype'] = ex.submit(
             run_tlc, PROTO, 'SftpProto', 'c14_notype',
             dict(small, CheckType='FALSE'), ['OwnReply'], (), 'view')
@@ -167,13 +197,22 @@ def main(ctx):
             dict(PROTO_CONSTS, K=2, MaxReplies=3), (), (), None, workers=2,
             simulate=f'file={d2}/tr,num={nsim // 2}', depth=5,
             seed=ctx.seed * 10 + 4, deadlock=False)
-        # no unknown id: longer interleavings of replies to known ids
+        # no unknown id: longer interleavings of replies to known ids, and
+        # callers that are cancelled while their request is outstanding
         d3 = tlc.workdir('c14_sim3_out')
         jobs['sim3'] = ex.submit(
             run_tlc, PROTO, 'SftpProto', 'c14_sim3',
-            dict(PROTO_CONSTS, AllowUnknown='FALSE'), (), (), None,
-            workers=4, simulate=f'file={d3}/tr,num={nsim}', depth=6,
+            dict(PROTO_CONSTS, AllowUnknown='FALSE', MaxCancels=2), (), (),
+            None, workers=4, simulate=f'file={d3}/tr,num={nsim}', depth=8,
             seed=ctx.seed * 10 + 5, deadlock=False)
+        # cancellation by the library itself: the parallel I/O layer cancels
+        # the sibling block requests after one block failed (specs/SftpIO)
+        from checks import c12
+        jobs['sim_io'] = ex.submit(
+            c12.sim, 'c14io', nsim, 24, ctx.seed * 10 + 6, workers=2,
+            MaxN=6, Blocks='{1, 2}', MaxReqs='{2, 3}',
+            Ops='{"read", "write", "get", "copy"}', SparseSet='{FALSE}',
+            MaxAns=2)
         jobs['srv'] = ex.submit(
             run_tlc, PROTO, 'SftpSrvCases', 'c14_srv', dict(Emit='TRUE'),
             ['OneReplyOwed', 'DamageIsError', 'CodeInVersion', 'V6Exact',
@@ -201,9 +240,18 @@ def main(ctx):
             run_tlc, ATTRS, 'SftpAttrs', 'c14_attrs_np',
             dict(base, Emit='FALSE', PairRule='FALSE', Vary=ATTR_A,
                  Always='{}'), ['NothingInvented'], workers=2)
+        io_behs, io_res = jobs.pop('sim_io').result()
         res = {k: f.result() for k, f in jobs.items() if f is not None}
 
     ctx.require_tlc_ok('SftpProto exhaustive', res['proto'])
+    ctx.require_tlc_ok('SftpProto exhaustive, two cancellations',
+                       res['proto2'])
+    ctx.require_tlc_ok('SftpProto where a late reply to a cancelled request '
+                       'counts as a bad id (must violate EndsOnlyOnBadId)',
+                       res['nodrop'], expect_violation='EndsOnlyOnBadId')
+    ctx.require_tlc_ok('witness NeverLateReply', res['wit_late'],
+                       expect_violation='NeverLateReply')
+    ctx.add_tlc('SftpIO simulate (cancelled sibling blocks)', io_res)
     ctx.require_tlc_ok('SftpProto without reply-type check (must violate '
                        'OwnReply)', res['notype'], expect_violation='OwnReply')
     ctx.require_tlc_ok('SftpProto without fail-all on a bad id (must violate '
@@ -230,40 +278,68 @@ def main(ctx):
         ctx.add_tlc(f'SftpProto simulate {k}', res[k])
 
     # ---- 1. client behaviours ---------------------------------------------
-    nclient = 0
+    nclient = ncancel = 0
     for dd in (d, d2, d3):
         for _name, steps in tlc.read_sim_traces(dd, 'tr_'):
-            kinds, replies, outcomes, closed = sftp_proto.split_behaviour(
+            kinds, events, outcomes, closed = sftp_proto.split_behaviour(
                 [(st['lbl'], st) for _, st in steps])
-            if not replies:
+            if not events:
                 continue
             version = rnd.choice([3, 3, 4, 5, 6])
-            r = sftp_proto.client_replay(kinds, replies, version, outcomes,
+            r = sftp_proto.client_replay(kinds, events, version, outcomes,
                                          closed)
             nclient += 1
-            nontrivial = len({m for m, _ in replies}) > 1
-            ctx.count(('client', tuple(kinds), tuple(replies)), nontrivial)
+            ncancel += any(e[0] == 'cancel' for e in events)
+            nontrivial = len({e[1] for e in events}) > 1
+            ctx.count(('client', tuple(kinds), tuple(events)), nontrivial)
             if nclient % 173 == 3:
                 ctx.sample({'part': 'client', 'kinds': kinds,
-                            'replies': replies, 'version': version,
-                            'observed': r.get('observed')})
-            rp = {'kind': 'client', 'kinds': kinds, 'replies': replies,
+                            'events': events, 'version': version,
+                            'observed': r.get('observed'),
+                            'followup': r.get('followup')})
+            rp = {'kind': 'client', 'kinds': kinds, 'events': events,
                   'version': version}
             for clause in sorted({c for c, _ in r['l1']}):
                 text = '; '.join(t for c, t in r['l1'] if c == clause)
                 violate({'module': 'SftpProto', 'clause': clause,
-                         'kinds': kinds, 'replies': replies,
+                         'kinds': kinds, 'events': events,
                          'version': version},
                         f'{clause}: {text} [callers={kinds} '
-                        f'replies={replies} v{version} '
+                        f'events={events} v{version} '
                         f'observed={r.get("observed")}]', rp)
             if r['diverged'] and not r['l1']:
                 ctx.divergence(f'SftpProto client: {r["diverged"]} '
-                               f'kinds={kinds} replies={replies}')
+                               f'kinds={kinds} events={events}')
             for e in r.get('loop_exceptions') or []:
                 ctx.divergence(f'SftpProto client: exception reached the '
                                f'event loop: {e} kinds={kinds} '
-                               f'replies={replies}')
+                               f'events={events}')
+    ctx.require(ncancel > 30, f'only {ncancel} behaviours with a cancelled '
+                              f'caller were replayed')
+    # cancelled sibling blocks of the parallel I/O layer: late replies, then
+    # a new request must get its own reply
+    nlate = 0
+    for c, script, states in io_behs:
+        if not script:
+            continue
+        r = sftp_io.replay(c, script, states, U=1,
+                           version=rnd.choice([3, 6]),
+                           variant=sftp_io.pick_variant(c, rnd))
+        nclient += 1
+        nlate += bool(r.get('late_replies'))
+        ctx.count(('client-io', json.dumps(c, sort_keys=True),
+                   json.dumps(r['script'])), bool(r.get('late_replies')))
+        for clause in sorted({cl for cl, _ in r['l1']}):
+            if clause != 'SessionSurvives':
+                continue                # the transfer's bytes are C12's job
+            text = '; '.join(t for cl, t in r['l1'] if cl == clause)
+            violate({'module': 'SftpProto', 'clause': clause, 'cfg': c,
+                     'script': r['script']},
+                    f'{clause}: {text} [cfg={c} script={r["script"]}]',
+                    {'kind': 'io', 'cfg': c, 'script': r['script'],
+                     'version': r['version'], 'variant': r['variant']})
+    ctx.require(nlate > 20, f'only {nlate} parallel I/O behaviours had '
+                            f'cancelled block requests answered late')
     sftp_io.drop_world()
     tlc.cleanup('c14_sim_out')
     tlc.cleanup('c14_sim2_out')
